@@ -371,8 +371,23 @@ func genTracerCase(r *Rng, em *Emitter, length int, al *tracerAlphabet) {
 		}
 	}
 
+	// one history in seven is call-heavy: many more calls than any initial capacity of the tree's containers, opened and closed at
+	// all depths, with the other operations in between
+	callHeavy := r.Chance(14)
+	if callHeavy {
+		length += 40
+		em.Count("case:call-heavy")
+	}
 	for i := 0; i < length; i++ {
-		switch k := pick(100); {
+		k0 := pick(100)
+		if callHeavy {
+			if x := pick(100); x < 45 {
+				k0 = 75 // enter call
+			} else if x < 70 {
+				k0 = 85 // exit call
+			}
+		}
+		switch k := k0; {
 		case k < 22: // register top-level
 			a, s, o, t, n := acct(), slot(), off(), typ(), al.names[pick(len(al.names))]
 			err := it.t.SaveStateKey(a, nil, s, o, t, common.Hash{}, n)
@@ -423,6 +438,24 @@ func genTracerCase(r *Rng, em *Emitter, length int, al *tracerAlphabet) {
 				}
 				return m
 			}
+			// … and the views of the same (slot, offset, type) under the OTHER accounts stay as they were: entries of different
+			// accounts never mix
+			snapOthers := func() string {
+				var parts []string
+				for _, a2 := range al.accounts {
+					if a2 == a {
+						continue
+					}
+					c, e := it.t.StateChanges().Slot(a2, s, o, t)
+					v := "none"
+					if e == nil && c != nil {
+						v = showChangeMap(c.Changes())
+					}
+					parts = append(parts, hexAddr(a2)+"="+v)
+				}
+				return strings.Join(parts, ";")
+			}
+			othersBefore := snapOthers()
 			before, idx := snap(), it.t.CurrentCallIndex()
 			err := it.t.SaveStateChange(a, s, o, t, v)
 			em.Op("C11,C10", fmt.Sprintf("T change %s %s %s %s %s", hexAddr(a), optU(s), optU(o), hexHash(t), hexBytes(v)), okErr(err))
@@ -448,6 +481,9 @@ func genTracerCase(r *Rng, em *Emitter, length int, al *tracerAlphabet) {
 							verdict = fmt.Sprintf("list_of_other_call_%d_appeared", i)
 						}
 					}
+				}
+				if oa := snapOthers(); oa != othersBefore && verdict == "ok" {
+					verdict = "record_of_another_account_changed:" + strings.ReplaceAll(othersBefore+"->"+oa, " ", "_")
 				}
 				em.Op("C10", "S attributed", verdict)
 			}
@@ -535,6 +571,9 @@ func genTracerCase(r *Rng, em *Emitter, length int, al *tracerAlphabet) {
 		}
 	}
 	query(true)
+	// C07 on the real structure after an arbitrary (also unbalanced) history: dense indices, lookup = index, unique smaller parent
+	// listing each child once in increasing order (the cursor may be anywhere, so "no call left open" is not asked here)
+	em.Op("C07", "S wf-any-history", checkTreeWF(it.t, -1, true))
 }
 
 func driveTracer(seed uint64, n int, maxLen int, em *Emitter) {
